@@ -42,6 +42,7 @@ def make_path_fn(task):
         cfg = C.REG[name](**params)
         mons = [m() for m in monclasses]
         Q = H.MonSimulation(cfg.net, monitors=mons, K=K, flags=dict(cfg.flags), node_class=cfg.node_class, **cfg.sim_kw)
+        ex.path_state["Q"] = Q
         mode = cfg.mode
         try:
             if mode == "time":
@@ -82,7 +83,45 @@ def _run_concrete(task, values):
             v = E.Violation("crash", str(e))
     finally:
         E.set_explorer(old)
-    return v, cx.path_events, cx.missing
+    return v, cx.path_events, cx.missing, record_values(cx.path_state.get("Q"), None)
+
+
+def record_values(Q, w):
+    """numeric fields of all records; symbolic fields evaluated under the witness w (exact rationals -> float)"""
+    if Q is None:
+        return None
+    out = []
+    for ind in sorted(H.all_inds(Q), key=lambda i: i.id_number):
+        for r in ind.data_records:
+            row = [r.id_number, r.node, r.record_type]
+            for f in ("arrival_date", "waiting_time", "service_start_date", "service_time", "service_end_date", "time_blocked", "exit_date"):
+                x = getattr(r, f)
+                if isinstance(x, E.SymReal):
+                    if w is None:
+                        return None
+                    x = float(E.Explorer._eval_lin(x.lin, w))
+                elif isinstance(x, float) and x != x:
+                    x = None
+                elif isinstance(x, (int, float)):
+                    x = float(x)
+                row.append(x)
+            out.append(row)
+    return out
+
+
+def records_agree(a, b):
+    if a is None or b is None:
+        return True
+    if len(a) > len(b):
+        return False  # the concrete run may have gone further only if the symbolic path was cut by the bound
+    for x, y in zip(a, b):
+        for u, v in zip(x, y):
+            if isinstance(u, float) and isinstance(v, float):
+                if abs(u - v) > 1e-9 * max(1.0, abs(u)):
+                    return False
+            elif u != v:
+                return False
+    return True
 
 
 def _worker(task):
@@ -97,6 +136,7 @@ def _worker_inner(task):
     ex = E.Explorer(ties=task["ties"], max_paths=task.get("max_paths", 300000), split_depth=task.get("split_depth"),
                     sample_paths=task.get("sample_paths", 2))
     ex.smt_dump_every = task.get("smt_dump_every", 0)
+    ex.record_fn = record_values
     E.set_explorer(ex)
     t0 = time.time()
     fn = make_path_fn(task)
@@ -107,12 +147,14 @@ def _worker_inner(task):
     for s in ex.samples:
         if s.get("witness") is None:
             continue
-        v, events, missing = _run_concrete(task, s["witness"])
-        if v is None and events[:len(s["events"])] == s["events"][:len(events)] and len(events) >= min(len(s["events"]), task["K"]):
+        v, events, missing, recs = _run_concrete(task, s["witness"])
+        if v is None and events[:len(s["events"])] == s["events"][:len(events)] and len(events) >= min(len(s["events"]), task["K"]) \
+                and records_agree(s.get("records"), recs):
             validated += 1
         else:
             mismatches.append({"decisions": s["decisions"], "symbolic": s["events"], "concrete": events,
-                               "violation": None if v is None else "%s: %s" % (v.mon, v.msg)})
+                               "violation": None if v is None else "%s: %s" % (v.mon, v.msg),
+                               "records_symbolic": s.get("records"), "records_concrete": recs})
     E.set_explorer(ex)
     return {
         "task": {k: v for k, v in task.items() if k != "prefix"},
@@ -184,7 +226,7 @@ def run_rows(prop, rows, tier, seed, mons, vacuity=(), extra_assumptions=(), fun
                 t = dict(res["task"])
                 t["prefix"] = pre
                 t["split_depth"] = None
-                t["sample_paths"] = 1
+                t["sample_paths"] = 1 if len(phase2) % 6 == 0 else 0
                 phase2.append(t)
         # longest prefixes tend to be the deepest subtrees: start them first
         for res in pool.imap_unordered(_worker, phase2, chunksize=1):
@@ -251,7 +293,7 @@ def finish(prop, tier, seed, rows, results, fatal, vacuity, extra_assumptions, f
         for v in vs[:3]:
             if v["values"] is None:
                 continue
-            rv, events, missing = _run_concrete(v["task"], v["values"])
+            rv, events, missing, _ = _run_concrete(v["task"], v["values"])
             if rv is not None and rv.mon == mon:
                 confirmed = (v, rv)
                 break
@@ -345,7 +387,7 @@ def finish(prop, tier, seed, rows, results, fatal, vacuity, extra_assumptions, f
 def replay_file(path):
     with open(path) as f:
         d = json.load(f)
-    rv, events, missing = _run_concrete(d["task"], d["values"])
+    rv, events, missing, _ = _run_concrete(d["task"], d["values"])
     print("replay of %s on %s" % (d["monitor"], d["config"]))
     print("events:", events)
     if rv is None:
